@@ -12,11 +12,13 @@ import (
 func (c *Config) MatchStandaloneJSON(t testingT, input any, matchers ...match.JSONMatcher) {
 	t.Helper()
 
-	if c.extension == "" {
-		c.extension = ".json"
+	// work on a copy so the shared Config is never mutated
+	cfg := *c
+	if cfg.extension == "" {
+		cfg.extension = ".json"
 	}
 
-	matchStandaloneJSON(c, t, input, matchers...)
+	matchStandaloneJSON(&cfg, t, input, matchers...)
 }
 
 func MatchStandaloneJSON(t testingT, input any, matchers ...match.JSONMatcher) {
